@@ -103,4 +103,11 @@ PROPS = {
         suites=[dict(driver="lib", suite="bridgelife", bins={"BRIDGE_FRONTEND": "utils/tcpbridge/tcp-bridge-frontend", "BRIDGE_BACKEND": "utils/tcpbridge/tcp-bridge-backend"})],
         assumptions=["TCP and the websocket deliver in order; a close is observed after the data queued before it"],
     ),
+    "C12": dict(
+        technique="Lean 4 labelled transition system of one shim session (reader/writer/closer goroutines, session table, any number of concurrent data/poll/close calls as step-wise threads) with close/send style variants classified from the regenerated skeletons (T3): invariant (no panic, statuses), enabledness and a strictly decreasing measure for all interleavings; decided counter-examples for the original variant; differential scripts and concurrent call races on the real shim under the race detector",
+        level_text="Proof, for any number of concurrently running calls and every interleaving with goroutine steps and backend events, that no call panics, every unanswered call leaves some internal step enabled while every internal step strictly decreases a measure (so each call is answered within `mu` internal steps), answers are 200/400/408, calls on sessions not in the table get 400, a closed session cancels the connection (closing the backend websocket), and the reader has taken every backend message when it reports the session closed. The code is classified from the regenerated skeletons of Connection.Close / SendClientMessage; the original code's variant is kept with kernel-checked panic and wedge traces.",
+        level_note=STD_NOTE + "Partial: absence of panics is proved for the modelled operations (channel send/close, table, goroutine exits); panics from other Go operations can only be met by the call-race runs. Modelled, not verified: Go channel/select semantics, sync.Map, gorilla/websocket; the 20 s poll timer is an always-enabled step.",
+        suites=[dict(driver="lib", suite="shimlife"), dict(driver="lib", suite="shimrace", race=True)],
+        assumptions=["Go select picks some ready case; a send on a full channel blocks", "the injected browser shim keeps one data post and one poll outstanding (not required for the no-panic/answers theorems)"],
+    ),
 }
